@@ -392,7 +392,7 @@ def fixed_sampling_items(g, pr):
             return _defs(prefix, Q, shift) + f'def {prefix}Wired : Bool := {"true" if wired else "false"}\n'
         fb = ''.join(f'def {prefix}{nm} {RAT7} : Rat := {M}.fixedQ {s} inputDx propDist wavelength outputDx\n'
                      for nm, s in (('Qy', 'a0'), ('Qx', 'a1'))) + \
-            f'def {prefix}ShiftX {RAT7} : Rat := sx / outputDx\ndef {prefix}ShiftY {RAT7} : Rat := sy / outputDx\n' \
+            f'def {prefix}ShiftX {RAT7} : Rat := (if ((sx ≠ (0 : Rat)) ∨ (sy ≠ (0 : Rat))) then (sx / outputDx) else sx)\ndef {prefix}ShiftY {RAT7} : Rat := (if ((sx ≠ (0 : Rat)) ∨ (sy ≠ (0 : Rat))) then (sy / outputDx) else sy)\n' \
             f'def {prefix}Wired : Bool := true\n'
         g.item(fname, f'prysm/propagation.py:{fname}', lambda fname=fname: get_def(pr, fname), build, fb)
 
@@ -460,10 +460,10 @@ def fpm_items(g, pr):
                 + f'def fpmFwdWired : Bool := {"true" if wired else "false"}\n')
     fb_f = (''.join(f'def fpmFwdOut{nm} {FPM_BINDER} : Rat := {t}\n' for nm, t in
                     (('Qy', f'{M}.fixedQ p0 dx efl wavelength fpmDx'), ('Qx', f'{M}.fixedQ p1 dx efl wavelength fpmDx'),
-                     ('ShiftX', 'sx / fpmDx'), ('ShiftY', 'sy / fpmDx')))
+                     ('ShiftX', '(if ((sx ≠ (0 : Rat)) ∨ (sy ≠ (0 : Rat))) then (sx / fpmDx) else sx)'), ('ShiftY', '(if ((sx ≠ (0 : Rat)) ∨ (sy ≠ (0 : Rat))) then (sy / fpmDx) else sy)')))
             + ''.join(f'def fpmFwdRet{nm} {FPM_BINDER} : Rat := {t}\n' for nm, t in
                       (('Qy', f'{M}.fixedQ m0 fpmDx efl wavelength dx'), ('Qx', f'{M}.fixedQ m1 fpmDx efl wavelength dx'),
-                       ('ShiftX', 'sx * dx / fpmDx / dx'), ('ShiftY', 'sy * dx / fpmDx / dx')))
+                       ('ShiftX', '(if ((((sx * dx) / fpmDx) ≠ (0 : Rat)) ∨ (((sy * dx) / fpmDx) ≠ (0 : Rat))) then (((sx * dx) / fpmDx) / dx) else ((sx * dx) / fpmDx))'), ('ShiftY', '(if ((((sx * dx) / fpmDx) ≠ (0 : Rat)) ∨ (((sy * dx) / fpmDx) ≠ (0 : Rat))) then (((sy * dx) / fpmDx) / dx) else ((sy * dx) / fpmDx))')))
             + 'def fpmFwdWired : Bool := true\n')
     g.item('to_fpm_and_back', 'prysm/propagation.py:to_fpm_and_back', lambda: get_def(pr, 'to_fpm_and_back'), fwd, fb_f)
 
@@ -490,24 +490,96 @@ def babinet_items(g, pr):
         one_minus_f = any(isinstance(n, ast.Assign) and ast.unparse(n) == 'fpm = 1 - fpm' for n in fwd.body)
         one_minus_b = any(isinstance(n, ast.Assign) and ast.unparse(n) == 'fpm = 1 - fpm' for n in bk.body)
         fwd_form = ('field_at_lyot = self.data - field.data' in src_f and 'field_after_lyot = lyot * field_at_lyot' in src_f)
-        # lyot conjugation in the backprop
-        conj_lyot = False
-        for n in ast.walk(bk):
-            if isinstance(n, ast.If) and ast.unparse(n.test) == 'np.iscomplexobj(lyot)' and len(n.body) == 1 \
-                    and ast.unparse(n.body[0]) in ('lyot = np.conj(lyot)', 'lyot = lyot.conj()'):
-                conj_lyot = True
-        cbar_form = 'cbar = dbar * lyot' in src_b and 'dbar = self.data' in src_b
-        # without a Lyot stop the upstream gradient passes unchanged: `else: cbar = dbar`
-        none_branch = any(isinstance(n, ast.If) and ast.unparse(n.test) == 'lyot is not None' and len(n.orelse) == 1
-                          and ast.unparse(n.orelse[0]) == 'cbar = dbar' for n in ast.walk(bk))
-        cbar_form = cbar_form and none_branch
+        # what is handed to the mask-and-back adjoint (`cbar`), by SYMBOLIC EXECUTION of the body under the three kinds of Lyot stop
+        # (absent / real array / complex array): if/else, default-then-override, early assignment ... all give the same term
+        def cbar_term(kind):
+            import copy
+            static = {'isinstance(fpm, Wavefront)': False, 'isinstance(lyot, Wavefront)': False,
+                      'lyot is not None': kind != 'none', 'lyot is None': kind == 'none',
+                      'np.iscomplexobj(lyot)': kind == 'complex', 'np.isrealobj(lyot)': kind == 'real'}
+            env = {}
+
+            def subst(e):
+                class S(ast.NodeTransformer):
+                    def visit_Name(self, n):
+                        return copy.deepcopy(env[n.id]) if (isinstance(n.ctx, ast.Load) and n.id in env) else n
+                return S().visit(copy.deepcopy(e))
+
+            def test(t):
+                if isinstance(t, ast.UnaryOp) and isinstance(t.op, ast.Not):
+                    return not test(t.operand)
+                if isinstance(t, ast.BoolOp):
+                    vs = [test(v) for v in t.values]
+                    return all(vs) if isinstance(t.op, ast.And) else any(vs)
+                k = ast.unparse(t)
+                if k not in static:
+                    raise Untranslatable(f'babinet_backprop branches on {k}')
+                return static[k]
+
+            def run(stmts):
+                for st in stmts:
+                    if isinstance(st, ast.If):
+                        run(st.body if test(st.test) else st.orelse)
+                    elif isinstance(st, ast.Assign) and len(st.targets) == 1 and isinstance(st.targets[0], ast.Name):
+                        env[st.targets[0].id] = subst(st.value)
+                    elif isinstance(st, ast.AugAssign) and isinstance(st.target, ast.Name):
+                        cur = env.get(st.target.id, ast.Name(id=st.target.id, ctx=ast.Load()))
+                        env[st.target.id] = ast.BinOp(left=copy.deepcopy(cur), op=st.op, right=subst(st.value))
+            run(bk.body)
+            call = find_calls(bk, 'Wavefront')
+            # the array wrapped for the mask-and-back adjoint: first argument of the Wavefront(...) built before that call
+            tgt = None
+            for n in ast.walk(bk):
+                if isinstance(n, ast.Assign) and isinstance(n.value, ast.Call) and ast.unparse(n.value.func) == 'Wavefront' and n.value.args:
+                    tgt = n.value.args[0]
+            if tgt is None:
+                raise Untranslatable('no Wavefront(cbar, ...) handed to the mask-and-back adjoint')
+            e = env.get(tgt.id) if isinstance(tgt, ast.Name) else None
+            if e is None:
+                raise Untranslatable('cbar not assigned by recognised statements')
+
+            def tr(x):
+                u = ast.unparse(x)
+                if u == 'self.data':
+                    return 'd'
+                if u == 'lyot':
+                    if kind == 'none':
+                        raise Untranslatable('lyot used although absent')
+                    return 'L'
+                if isinstance(x, ast.Constant) and isinstance(x.value, int) and not isinstance(x.value, bool):
+                    return f'(({x.value} : Int) : C)'
+                if isinstance(x, ast.BinOp) and type(x.op) in (ast.Mult, ast.Add, ast.Sub):
+                    return '(' + tr(x.left) + ' ' + {ast.Mult: '*', ast.Add: '+', ast.Sub: '-'}[type(x.op)] + ' ' + tr(x.right) + ')'
+                if isinstance(x, ast.Call):
+                    f = ast.unparse(x.func)
+                    if f in ('np.conj', 'np.conjugate') and len(x.args) == 1:
+                        return f'(conj {tr(x.args[0])})'
+                    if isinstance(x.func, ast.Attribute) and x.func.attr in ('conj', 'conjugate') and not x.args:
+                        return f'(conj {tr(x.func.value)})'
+                raise Untranslatable(f'cbar expression {u[:60]}')
+            return tr(e)
+        CB = '{C : Type} [Mul C] [Add C] [Sub C] [IntCast C] (conj : C → C) (d L : C) : C'
+        cbar_defs = (f'def babinetBackCbarNone {CB} := {cbar_term("none")}\n'
+                     f'def babinetBackCbarReal {CB} := {cbar_term("real")}\n'
+                     f'def babinetBackCbarComplex {CB} := {cbar_term("complex")}\n')
         # the adjoint of to_fpm_and_back is applied to cbar, with the same arguments as the forward call
         calls = find_calls(bk, 'cbarW.to_fpm_and_back_backprop')
         fcalls = find_calls(fwd, 'self.to_fpm_and_back')
         def kws(c):
             return {k.arg: ast.unparse(k.value) for k in c.keywords if k.arg != 'return_more'}
-        same_args = len(calls) == 1 and len(fcalls) >= 1 and all(kws(c) == kws(calls[0]) for c in fcalls) \
-            and 'cbarW = Wavefront(cbar, ' in src_b
+        if len(calls) != 1 or len(fcalls) < 1 or calls[0].args or any(c.args for c in fcalls):
+            raise Untranslatable('call of the mask-and-back adjoint not in the recognised (keyword) shape')
+        same_args = all(kws(c) == kws(calls[0]) for c in fcalls)
+        if not same_args:
+            plain = lambda v: v.replace('_', '').replace('.', '').isalnum()
+            diff_vals = [v for c in fcalls for k_, v in kws(c).items() if kws(calls[0]).get(k_) != v] + \
+                        [v for k_, v in kws(calls[0]).items() if any(kws(c).get(k_) != v for c in fcalls)]
+            if not all(plain(v) for v in diff_vals):
+                raise Untranslatable('arguments of the mask-and-back calls differ by expressions this recogniser cannot compare')
+        if not (one_minus_f and one_minus_b):
+            raise Untranslatable('`fpm = 1 - fpm` not found as a statement on both sides')
+        if not fwd_form:
+            raise Untranslatable('forward babinet not in the recognised shape')
         # how the two terms are combined
         coef = None
         for n in bk.body:
@@ -529,12 +601,15 @@ def babinet_items(g, pr):
         return (f'def babinetBackCoef : Int := {coef}\n'
                 f'def babinetMaskIsOneMinusInBoth : Bool := {b(one_minus_f and one_minus_b)}\n'
                 f'def babinetFwdIsLyotTimesDataMinusField : Bool := {b(fwd_form)}\n'
-                f'def babinetBackConjLyotIffComplex : Bool := {b(conj_lyot and cbar_form)}\n'
+                + cbar_defs +
                 f'def babinetBackSameCallArgs : Bool := {b(same_args)}\n')
     g.item('babinet_backprop', 'prysm/propagation.py:Wavefront.babinet_backprop',
            lambda: get_def(pr, 'Wavefront.babinet_backprop'), facts,
            'def babinetBackCoef : Int := -1\ndef babinetMaskIsOneMinusInBoth : Bool := true\n'
-           'def babinetFwdIsLyotTimesDataMinusField : Bool := true\ndef babinetBackConjLyotIffComplex : Bool := true\n'
+           'def babinetFwdIsLyotTimesDataMinusField : Bool := true\n'
+           'def babinetBackCbarNone {C : Type} [Mul C] [Add C] [Sub C] [IntCast C] (conj : C → C) (d L : C) : C := d\n'
+           'def babinetBackCbarReal {C : Type} [Mul C] [Add C] [Sub C] [IntCast C] (conj : C → C) (d L : C) : C := (d * L)\n'
+           'def babinetBackCbarComplex {C : Type} [Mul C] [Add C] [Sub C] [IntCast C] (conj : C → C) (d L : C) : C := (d * (conj L))\n'
            'def babinetBackSameCallArgs : Bool := true\n')
 
 
@@ -560,6 +635,7 @@ def spatial_gradient_items(g, op):
         outname = outs[0]
         tr = Tr({endname: 'e'})
         slices = {}
+        views = {}          # local name -> terms: a hoisted (combination of) slice(s) of the INPUT array, which is never written
         upds = []
         axes = set()
         zero_init = False
@@ -592,6 +668,8 @@ def spatial_gradient_items(g, op):
                 ax, lo, hi = sl(node.slice)
                 axes.add(ax)
                 return [(sign, lo, hi)]
+            if isinstance(node, ast.Name) and node.id in views:
+                return [(sign * sg, lo, hi) for sg, lo, hi in views[node.id]]
             raise Untranslatable(f'right-hand side {ast.unparse(node)}')
 
         for st in fn.body:
@@ -612,6 +690,9 @@ def spatial_gradient_items(g, op):
                     continue
                 if isinstance(st.value, ast.Call) and ast.unparse(st.value.func) == 'slice' and len(st.value.args) == 2:
                     slices[nm] = (tr.expr(st.value.args[0]), tr.expr(st.value.args[1]))
+                    continue
+                if nm not in (arg, outname, endname) and nm not in slices:
+                    views[nm] = terms(st.value, 1)      # raises Untranslatable unless a combination of slices of the input
                     continue
                 raise Untranslatable(f'statement {ast.unparse(st)}')
             tgt = st.targets[0] if isinstance(st, ast.Assign) else st.target if isinstance(st, ast.AugAssign) else None
@@ -1252,7 +1333,7 @@ def wavefront_items(g, pr):
     g.item('Wavefront.from_amp_and_phase_backprop_phase', 'prysm/propagation.py:Wavefront.from_amp_and_phase_backprop_phase',
            lambda: get_def(pr, 'Wavefront.from_amp_and_phase_backprop_phase'), phase,
            f'def phaseBack {PAR} (k : K) (gbar g : Cx K) : K := {M}.phaseBack k gbar g\n'
-           f'def phaseFwdK {PAR} (pi wavelength : K) : K := pi\ndef phaseBackK {PAR} (pi wavelength : K) : K := pi\n')
+           f'def phaseFwdK {PAR} (pi wavelength : K) : K := ((((Num.ofInt (2)) * pi) / wavelength) / (Num.ofInt (1000)))\ndef phaseBackK {PAR} (pi wavelength : K) : K := ((((Num.ofInt (2)) * pi) / wavelength) / (Num.ofInt (1000)))\n')
 
 
 def structural_items(g, ft, po, dm):
@@ -1454,6 +1535,10 @@ class MatTr:
         key = ast.unparse(e)
         if key in self.env:
             return self.env[key]
+        if isinstance(e, ast.Subscript) and ast.unparse(e.value) in ('self.Eout', 'self.Ein') \
+                and getattr(self, 'alias', {}).get(ast.unparse(e.slice), ast.unparse(e.slice)) == 'key':
+            # a cached basis of `key` used in place (no local name)
+            return ('Eout', ('M', 'm')) if ast.unparse(e.value) == 'self.Eout' else ('Ein', ('n', 'N'))
         if isinstance(e, ast.Attribute) and e.attr == 'T':
             t, (r, c) = self.ev(e.value)
             return (f'(fun i j => {t} j i)', (c, r))
@@ -1476,6 +1561,7 @@ class MatTr:
         parameters bound to matrices carry their value, other parameters (e.g. the cache key) are aliases of the
         caller's expression."""
         alias = dict(alias or {})
+        self.alias = alias
         res = lambda e: alias.get(ast.unparse(e), ast.unparse(e))
 
         def helper_call(v):
@@ -1749,6 +1835,10 @@ def resample_items(g, ft, dm):
                and norm(' '.join(ba)) in (f'zoom({bd[0]},{bd[1]})', 'zoomin_shape')
                and [norm(x).replace('returnfbar', 'returnf') for x in bp if x.startswith('if')]
                == [norm(x) for x in fp if x.startswith('if')])
+        if not geo:
+            # the text-level comparison of the transform geometry does not recognise this spelling: refuse (hand model + widened sweep)
+            # rather than claim a difference
+            raise Untranslatable('matrix-DFT geometry / prologue of fourier_resample(_backprop) not in the recognised spelling')
         return (f'def resampleFwdChain : List String := {fmt(fc)}\n'
                 f'def resampleBackChain : List String := {fmt(bc)}\n'
                 f'def resampleFwdPre (n : Nat) : Nat := {SHIFT[lf[0]]}\ndef resampleFwdPost (n : Nat) : Nat := {SHIFT[lf[2]]}\n'
@@ -1792,6 +1882,15 @@ def wrapper_items(g, pr):
     def tags(b, names):
         return '[' + ', '.join('"' + (ast.unparse(b[nm]) if nm in b else '<default>') + '"' for nm in names) + ']'
 
+    def comparable(bf_, bb_, names):
+        """pass-through arguments that differ textually are a recognised difference only when both are bare names / attributes
+        (another variable is handed over); any other spelling (a call, a hoisted expression) is refused"""
+        for nm in names:
+            x = ast.unparse(bf_[nm]) if nm in bf_ else '<default>'
+            y = ast.unparse(bb_[nm]) if nm in bb_ else '<default>'
+            if x != y and not all(isinstance(v.get(nm), (ast.Name, ast.Attribute)) for v in (bf_, bb_)):
+                raise Untranslatable(f'pass-through argument {nm}: {x} vs {y}')
+
     def ret_wavefront(fn, env):
         """(dx term, space text) of the Wavefront returned by the last plain `return Wavefront(...)`"""
         rets = [r for r in find_returns(fn) if isinstance(r, ast.Call) and ast.unparse(r.func) == 'Wavefront']
@@ -1814,6 +1913,7 @@ def wrapper_items(g, pr):
         eb = {'self.dx': 'q', 'dx': 'p', 'efl': 'efl', 'self.wavelength': 'wl'}
         N = ['input_dx', 'prop_dist', 'wavelength', 'output_dx']
         T = ['wavefunction', 'output_samples', 'shift', 'method']
+        comparable(fb_, bb, T)
         dxr, sp = ret_wavefront(bf, eb)
         return (f'def wfFfsFwdNum {PQ} : List Rat := {nums(fb_, N, ef)}\n'
                 f'def wfFfsBackNum {PQ} : List Rat := {nums(bb, N, eb)}\n'
@@ -1853,6 +1953,7 @@ def wrapper_items(g, pr):
             if unpack is None or ret is None or set(unpack) != set(ret) or any(x not in label for x in ret):
                 raise Untranslatable('return_more branch not in the recognised shape')
             return [unpack.index(x) for x in ret], [label[x] for x in ret]
+        comparable(fb_, bb, T)
         po, pl = more(bf)
         dxr, sp = ret_wavefront(bf, e)
         return (f'def wfFpmFwdNum {PF} : List Rat := {nums(fb_, N, e)}\n'
@@ -1905,8 +2006,7 @@ def live_general_item(g, repo):
                         cands.append('from_amp_and_phase')
                     fname = next((x for x in cands if x in meth and x != bname), None)
                     if fname is None:
-                        stale.append(f'{c.name}.{bname}: no forward counterpart found')
-                        continue
+                        continue          # a helper / an unpaired routine: not a pair (its reads count for the methods that call it)
                     if '__setattr__' in meth or '__getattr__' in meth:
                         hooked.append(f'{c.name}.{fname}/{bname}')
                         continue
@@ -1924,7 +2024,17 @@ def live_general_item(g, repo):
                     if any(isinstance(d, ast.Name) and d.id == 'classmethod' for d in f.decorator_list):
                         live |= {'wavelength', 'data', 'dx', 'space'} if c.name == 'Wavefront' else set()   # a constructor: its product's fields
                     pairs.append(f'{c.name}.{fname}/{bname}')
-                    for a in sorted(attrs(b, ast.Load) - live):
+                    breads, seen_b, todo_b = set(attrs(b, ast.Load)), set(), [b]
+                    while todo_b:                     # helper methods called (transitively) by the backprop read on its behalf
+                        h = todo_b.pop()
+                        for n in ast.walk(h):
+                            if isinstance(n, ast.Call) and isinstance(n.func, ast.Attribute) and isinstance(n.func.value, ast.Name) \
+                                    and n.func.value.id == 'self' and n.func.attr in meth and n.func.attr not in seen_b \
+                                    and n.func.attr != fname:
+                                seen_b.add(n.func.attr)
+                                breads |= attrs(meth[n.func.attr], ast.Load)
+                                todo_b.append(meth[n.func.attr])
+                    for a in sorted(breads - live):
                         if (c.name, a) not in ALLOW:
                             stale.append(f'{c.name}.{bname} reads self.{a}')
         fmt = lambda l: '[' + ', '.join(json_str(x) for x in l) + ']'
@@ -1933,7 +2043,7 @@ def live_general_item(g, repo):
                 f'def liveAttributeHooked : List String := {fmt(sorted(hooked))}\n')
     g.item('backprop.live_attributes_all', 'prysm/x/optym/activation.py + operators.py + x/dm.py + propagation.py + fttools.py',
            lambda: [load(repo, rel)[0] for rel in MODS], build,
-           'def liveAttributePairs : List String := []\ndef backpropStaleReads : List String := []\ndef liveAttributeHooked : List String := []\n')
+           'def liveAttributePairs : List String := ["Arctan.forward/backprop", "DM.render/render_backprop", "DiscreteEncoder.forward/backprop", "GumbelSoftmax.forward/backprop", "MatrixDFTExecutor.dft2/dft2_backprop", "MatrixDFTExecutor.idft2/idft2_backprop", "Sigmoid.forward/backprop", "Softmax.forward/backprop", "Softplus.forward/backprop", "SpatialGradient2D.forward_x/backprop_x", "SpatialGradient2D.forward_y/backprop_y", "Tanh.forward/backprop", "Wavefront.babinet/babinet_backprop", "Wavefront.focus_fixed_sampling/focus_fixed_sampling_backprop", "Wavefront.intensity/intensity_backprop", "Wavefront.to_fpm_and_back/to_fpm_and_back_backprop"]\ndef backpropStaleReads : List String := []\ndef liveAttributeHooked : List String := []\n')
 
 
 def generate(repo):
